@@ -10,7 +10,7 @@ ASSUMPTIONS = c01.ASSUMPTIONS + ["GC passes run synchronously between client ope
 
 
 def run(ctx):
-    return c01.run_mode(ctx, MODE, 120 if ctx.tier == "quick" else 4000, PID)
+    return c01.run_mode(ctx, MODE, 120 if ctx.tier == "quick" else 1500, PID)
 
 
 def search(ctx, broken):
